@@ -12,6 +12,7 @@ import (
 	"path/filepath"
 	"strings"
 	"sync"
+	"sync/atomic"
 	"time"
 
 	"google.golang.org/protobuf/encoding/protowire"
@@ -63,6 +64,7 @@ func Run(o *hx.Opts, w *lineio.Writer) error {
 	}
 	close(next)
 	var wg sync.WaitGroup
+	var slow int32 // cases that ended by deadline: after a few, stop (each costs a full request timeout)
 	errs := make(chan error, workers)
 	for k := 0; k < workers; k++ {
 		wg.Add(1)
@@ -71,12 +73,18 @@ func Run(o *hx.Opts, w *lineio.Writer) error {
 			p := &proc{dir: filepath.Join(o.Scratch, fmt.Sprintf("w%d", k))}
 			defer p.kill()
 			for i := range next {
+				if atomic.LoadInt32(&slow) >= 3 {
+					continue // not run, not emitted: the failing inputs are already on record
+				}
 				ob, err := p.do(ids[i], ins[i])
 				if err != nil {
 					errs <- err
 					return
 				}
 				obs[i] = ob
+				if ob.Outcome == "timeout" || ob.ErrKind == "deadline" {
+					atomic.AddInt32(&slow, 1)
+				}
 			}
 		}(k)
 	}
@@ -87,6 +95,9 @@ func Run(o *hx.Opts, w *lineio.Writer) error {
 	default:
 	}
 	for i := range ins {
+		if obs[i] == nil {
+			continue
+		}
 		if err := w.Put(&lineio.Case{ID: ids[i], In: ins[i], Obs: obs[i]}); err != nil {
 			return err
 		}
@@ -170,24 +181,26 @@ func firstPanicLine(s string) string {
 }
 
 func (p *proc) do(id string, in *In) (*Obs, error) {
-	if p.cmd == nil {
-		if err := p.start(); err != nil {
-			return nil, err
-		}
-	}
 	b, err := json.Marshal(workerReq{ID: id, In: in})
 	if err != nil {
 		return nil, err
 	}
-	if _, err := p.stdin.Write(append(b, '\n')); err != nil {
-		// the worker died before reading: treat as a crash of this case
+	for try := 0; ; try++ {
+		if p.cmd == nil {
+			if err := p.start(); err != nil {
+				return nil, err
+			}
+		}
+		if _, err := p.stdin.Write(append(b, '\n')); err == nil {
+			break
+		}
+		// the worker is gone (it exits on its own after reporting a stuck case): start a fresh one
 		p.kill()
-		ob := emptyObs()
-		ob.Outcome, ob.Panic = "crashed", "worker not accepting input"
-		sizesInto(ob, in)
-		return ob, nil
+		if try == 2 {
+			return nil, fmt.Errorf("worker does not accept input")
+		}
 	}
-	limit := reqTimeout() + 60*time.Second
+	limit := reqTimeout() + 25*time.Second
 	select {
 	case l, ok := <-p.lines:
 		if !ok {
@@ -210,6 +223,9 @@ func (p *proc) do(id string, in *In) (*Obs, error) {
 		}
 		if rsp.ID != id {
 			return nil, fmt.Errorf("worker answered %q for %q", rsp.ID, id)
+		}
+		if rsp.Obs.Outcome == "timeout" {
+			p.kill()
 		}
 		return rsp.Obs, nil
 	case <-time.After(limit):
